@@ -188,6 +188,17 @@ func (f *FailoverOf[V]) Get(
 		return f.waitForValue(withoutSkipRead(ctx), key, keyLock)
 	}
 
+	// Keeping expired value as a fallback for update failure, regardless of staleness.
+	var (
+		staleVal   V
+		hasStale   bool
+		errExpired ErrWithExpiredItemOf[V]
+	)
+
+	if errors.As(err, &errExpired) {
+		staleVal, hasStale = errExpired.Value(), true
+	}
+
 	// Pushing expired value with short ttl to serve during update.
 	if v, freshEnough := f.freshEnough(err); freshEnough {
 		if err = f.refreshStale(ctx, key, v); err != nil {
@@ -221,8 +232,8 @@ func (f *FailoverOf[V]) Get(
 					"key", key)
 			}
 
-			if !f.config.FailHard && !errors.Is(err, ErrNotFound) {
-				return val, nil
+			if hasStale && !f.config.FailHard {
+				return staleVal, nil
 			}
 		}
 
